@@ -4,7 +4,7 @@ import ast
 from .. import AnalysisError
 from ..report import Ob
 from ..cfg import calls_at, call_attr, is_self_attr
-from ..state import Analysis, State, TOP
+from ..state import Analysis, State, TOP, bind_call, SCHED_PARAMS
 from ..norm import Normalizer, FrameEnv, single_defs, subst
 from .. import inventory as inv
 from .. import devices as dv
@@ -452,6 +452,42 @@ def check(ctx):
             o.count()
             if not (s.cls is Env and s.func.name in inv.covered(P, owners)):
                 o.fail(P, s.ctx, s.stmt, f'Environment.{a_} is written outside {sorted(owners)}', file=s.mod.path, line=s.line)
+    # ---- C15.5 what the trace reads from an action, every scheduled action has ------------------------------------------
+    o = Ob('C15.5', 'K9', 'writer / reader agreement on scheduled actions: every attribute the trace (and the failed-event report) reads from event.action '
+                          'exists on every kind of callable that the package schedules (bound methods, functions, lambdas, functools.partial objects)')
+    obs.append(o)
+    reads = []
+    for m_, c_, f_ in inv.functions(P):
+        if c_ is None or c_.name != 'Environment':
+            continue
+        for x in ast.walk(f_):
+            if isinstance(x, ast.Attribute) and isinstance(x.ctx, ast.Load) and isinstance(x.value, ast.Attribute) and x.value.attr == 'action' \
+                    and x.attr.startswith('__') and x.attr not in ('__call__', '__class__', '__doc__'):
+                reads.append((f_.name, x.attr, x.lineno))
+    LACKS = {'partial': {'__name__', '__qualname__', '__code__', '__defaults__', '__self__'}}
+    n_sites = 0
+    for s_ in inv.method_calls(P, 'schedule_event'):
+        b_ = bind_call(s_.node, SCHED_PARAMS)
+        act = b_.get('action')
+        if act is None:
+            continue
+        n_sites += 1
+        o.count()
+        kind = 'callable'
+        if isinstance(act, ast.Name) and s_.func is not None:
+            act = single_defs(s_.func).get(act.id, act)
+        if isinstance(act, ast.Call) and call_attr(act) == 'partial':
+            kind = 'partial'
+        missing = sorted({a for _, a, _ in reads} & LACKS.get(kind, set()))
+        if missing:
+            rd = [r for r in reads if r[1] in missing][0]
+            o.fail(P, s_.ctx, s_.node, f'this event is scheduled with a functools.partial action, but Environment.{rd[0]} reads event.action.{rd[1]} (line {rd[2]}), which a partial '
+                   'does not have: with tracing enabled the run aborts with AttributeError when this event is executed, so the trace does not list the executed events',
+                   file=s_.mod.path, line=s_.line)
+        else:
+            o.witness((s_.ctx, kind))
+    o.require(n_sites >= 6, f'only {n_sites} schedule_event sites with an action found')
+    o.stats = {'attributes_read_from_actions': sorted({(f, a) for f, a, _ in reads})}
     return obs
 
 
